@@ -162,6 +162,40 @@ func instrDominates(a, b ssa.Instruction) bool {
 	return ba.Dominates(bb)
 }
 
+// instrReaches reports whether b can execute after a on some path (a != b).
+func instrReaches(a, b ssa.Instruction) bool {
+	ba, bb := a.Block(), b.Block()
+	if ba == bb {
+		ia, ib := -1, -1
+		for i, in := range ba.Instrs {
+			if in == a {
+				ia = i
+			}
+			if in == b {
+				ib = i
+			}
+		}
+		if ia < ib {
+			return true
+		}
+	}
+	seen := map[*ssa.BasicBlock]bool{}
+	work := append([]*ssa.BasicBlock{}, ba.Succs...)
+	for len(work) > 0 {
+		x := work[len(work)-1]
+		work = work[:len(work)-1]
+		if seen[x] {
+			continue
+		}
+		seen[x] = true
+		if x == bb {
+			return true
+		}
+		work = append(work, x.Succs...)
+	}
+	return false
+}
+
 // reachableBlocks returns the set of blocks reachable from start (inclusive)
 // following edges for which keep(from, succIdx) is true.
 func reachableBlocks(start *ssa.BasicBlock, keep func(from *ssa.BasicBlock, idx int) bool) map[*ssa.BasicBlock]bool {
